@@ -236,6 +236,7 @@ pub fn run(ctx: &Ctx) -> i32 {
             }
         }
     });
+    crate::also_in_release_build(&mut report, "C18", ctx);
     report.finish()
 }
 
